@@ -9,6 +9,12 @@ harness rebinds them into the modules under test); each of their operations, and
 point*: the running thread announces the operation it is about to perform and the
 scheduler picks the thread that runs next among the enabled ones.
 
+* Thread start: every thread first runs alone, in id order, up to its first scheduling point (the code before
+  it is thread-local) and is parked there; from then on its first operation competes with everything else, so
+  "when does a thread start" is explored without paying for the permutations of no-op start events.  Threads
+  started later by the program (`Thread.start()`) begin with an explicit, always enabled `start` operation.
+* Real OS threads are pooled between executions (`_Worker`); a worker is handed back only after the managed
+  function has completely unwound, otherwise the execution "cannot be torn down" (SchedError).
 * Enabled order (canonical): running thread first, then ascending thread ids.  Choice 0 is
   therefore "keep running"; choosing another thread while the running one is enabled is a
   **preemption** (cost 1).  When the running thread is blocked or has exited every choice
@@ -463,6 +469,9 @@ class Lock:
         self._locked = False
 
     def locked(self):
+        s = _sched_of(self)
+        if s is not None:
+            s.point(K_ALWAYS, None, "lock.locked")
         return self._locked
 
     def __enter__(self):
@@ -533,6 +542,9 @@ class Event:
         self._flag = False
 
     def is_set(self):
+        s = _sched_of(self)
+        if s is not None:
+            s.point(K_ALWAYS, None, "event.is_set")
         return self._flag
 
     def set(self):
@@ -568,13 +580,24 @@ class Queue:
         self._items = deque()
         self._unfinished = 0
 
+    def _peek(self, label):
+        s = _sched_of(self)
+        if s is not None:
+            s.point(K_ALWAYS, None, label)   # reading shared state is a scheduling point too
+
     def qsize(self):
+        self._peek("queue.qsize")
         return len(self._items)
 
     def empty(self):
+        self._peek("queue.empty")
         return not self._items
 
     def full(self):
+        self._peek("queue.full")
+        return 0 < self.maxsize <= len(self._items)
+
+    def _full(self):
         return 0 < self.maxsize <= len(self._items)
 
     def put(self, item, block=True, timeout=None):
@@ -582,13 +605,13 @@ class Queue:
         if timeout is not None and timeout < 0:
             raise ValueError("'timeout' must be a non-negative number")
         if s is None:
-            if self.full():
+            if self._full():
                 if block and timeout is None:
                     raise SchedError("Queue.put would block forever outside a controlled execution")
                 raise Full
         elif not block or (timeout is not None and timeout == 0):
             s.point(K_ALWAYS, None, "queue.put_nowait")
-            if self.full():
+            if self._full():
                 raise Full
         else:
             if not s.point(K_PUT, self, "queue.put", timeout):
